@@ -10,6 +10,17 @@
 using namespace bpp;
 using namespace std;
 
+#ifdef BPP_CORE_VERIF
+namespace bpp
+{
+// Verification call-out, null unless a conformance driver installs it.
+// Called once per generated cell of rcont2 with
+// {l, m, ia, ib, ic, id, ie, ii, first start value, chosen value}
+// (the last two are 0 when the row was already full, ie == 0).
+void (* verifRcont2CellHook)(const size_t* cell) = nullptr;
+}
+#endif
+
 /**************************************************************************/
 
 ContingencyTableGenerator::ContingencyTableGenerator(
@@ -58,6 +69,10 @@ RowMatrix<size_t> ContingencyTableGenerator::rcont2()
   size_t j, l, m, ia, ib, ic, jc, id, ie, ii, nll, nlm, nr_1, nc_1;
   long double x, y, dummy, sumprb;
   bool lsm, lsp;
+#ifdef BPP_CORE_VERIF
+  size_t verifNlm0 = 0;
+  bool verifFirst = true;
+#endif
 
   nr_1 = nrow_ - 1;
   nc_1 = ncol_ - 1;
@@ -88,6 +103,13 @@ RowMatrix<size_t> ContingencyTableGenerator::rcont2()
 
       if (ie == 0)  /* Row [l,] is full, fill rest with zero entries */
       {
+#ifdef BPP_CORE_VERIF
+        if (verifRcont2CellHook)
+        {
+          const size_t verifCell[10] = {l, m, ia, ib, ic, id, ie, ii, 0, 0};
+          verifRcont2CellHook(verifCell);
+        }
+#endif
         for (j = m; j < nc_1; ++j)
         {
           table(l, j) = 0;
@@ -98,6 +120,9 @@ RowMatrix<size_t> ContingencyTableGenerator::rcont2()
 
       /* Generate pseudo-random number */
       dummy = RandomTools::giveRandomNumberBetweenZeroAndEntry(1.0);
+#ifdef BPP_CORE_VERIF
+      verifFirst = true;
+#endif
 
       do /* Outer Loop */
 
@@ -105,6 +130,13 @@ RowMatrix<size_t> ContingencyTableGenerator::rcont2()
 
       {
         nlm = ia * static_cast<size_t>((static_cast<long double>(id) / static_cast<long double>(ie)) + 0.5);
+#ifdef BPP_CORE_VERIF
+        if (verifFirst)
+        {
+          verifNlm0 = nlm;
+          verifFirst = false;
+        }
+#endif
         x = exp(fact_[ia] + fact_[ib] + fact_[ic] + fact_[id]
               - fact_[ie] - fact_[nlm]
               - fact_[id - nlm] - fact_[ia - nlm] - fact_[ii + nlm]);
@@ -158,6 +190,13 @@ RowMatrix<size_t> ContingencyTableGenerator::rcont2()
       while (true);
 
 L160:
+#ifdef BPP_CORE_VERIF
+      if (verifRcont2CellHook)
+      {
+        const size_t verifCell[10] = {l, m, ia, ib, ic, id, ie, ii, verifNlm0, nlm};
+        verifRcont2CellHook(verifCell);
+      }
+#endif
       table(l, m) = nlm;
       ia -= nlm;
       jwork_[m] -= nlm;
